@@ -23,7 +23,7 @@ from .framework import crat, parse_crat
 PID = "C08"
 P = "OQuPyVerif.Props.C08."
 THEOREMS = [P + t for t in (
-    "wiring_as_modelled",
+    "wiring_as_modelled", "propagator_memo_keys_complete",
     "adjoint_exact_first", "adjoint_exact_second", "objective_invariant",
     "forward_eq_spec_one", "forward_eq_spec_two",
     "model_backprop_eq_spec_one", "backward_order_reversed", "model_backprop_eq_spec_two",
@@ -52,7 +52,7 @@ def _grid(rng, shape, denom=16, scale=1.0):
     return (scale * (re + 1j * im) / denom).reshape(shape)
 
 
-def rand_pt(rng, n, bonds, dim=2, kind="random"):
+def rand_pt(rng, n, bonds, dim=2, kind="random", dt=DT):
     """hand-built rank-4 process tensor (bond dims `bonds`, first and last = 1)"""
     from . import oq
     L = dim * dim
@@ -72,7 +72,7 @@ def rand_pt(rng, n, bonds, dim=2, kind="random"):
         else:
             m = _grid(rng, shape, 8, 0.75)
         mpos.append(m)
-    return oq.simple_pt(mpos, dim, dt=DT)
+    return oq.simple_pt(mpos, dim, dt=dt)
 
 
 def rand_bonds(rng, n, maxd=3):
@@ -344,11 +344,41 @@ def gen_case(rng, tier, i):
                 props=props, dprops=dprops, callable_target=(tkind == "callable"))
 
 
+REUSE_CALLS = [(0.2, 1), (0.1, 2)]      # (dt, num_steps) of the consecutive calls
+
+
+def reuse_cases(rng, M, coeffs=(0.5, 0.2, 0.1)):
+    used = make_real_system(M, "param", list(coeffs), derivs="numdiff")
+    shared = [round(rng.uniform(-1, 1), 3) for _ in range(M)]
+    out = []
+    for call, (dt, n) in enumerate(REUSE_CALLS):
+        params = np.array([[rng.uniform(-1, 1) for _ in range(M)] for _ in range(2 * n)])
+        params[0] = shared                   # the same control values occur in both calls
+        params[-1] = shared
+        fresh = make_real_system(M, "param", list(coeffs), derivs="frechet")
+        pf, df = fresh.get_propagators(dt, params), fresh.get_propagator_derivatives(dt, params)
+        E = 1 + call % 2
+        pts = [rand_pt(rng, n, rand_bonds(rng, n, 2), dt=dt) for _ in range(E)]
+        out.append(dict(desc={"E": E, "N": n, "M": M, "bonds": "rand<=2", "pt_kinds": ["random"] * E,
+                              "system": "reused-object-numdifftools", "target": "array",
+                              "call": call, "dt": dt},
+                        pts=pts, n=n, M=M, rho0=_grid(rng, (2, 2), 8), tgt=_grid(rng, (2, 2), 8),
+                        system=used, params=params, props=[pf(k) for k in range(n)],
+                        dprops=[df(k) for k in range(n)], grad_rtol=1e-6))
+    return out
+
+
 def correspondence(res, tier, rng):
     ncase = 18 if tier == "quick" else 150
     cases = [gen_case(rng, tier, i) for i in range(ncase)]
-    # one case through the library's own numerically differentiated propagator derivatives
-    nd = 1 if tier == "quick" else 4
+    # ONE ParameterizedSystem object used for two calls with different dt / num_steps (the library's
+    # numerically differentiated derivatives); expected propagators and derivatives come from a
+    # fresh object (user-supplied Frechet derivatives), so a result that depends on the object's
+    # history shows up as a disagreement
+    for M in ([1] if tier == "quick" else [1, 2]):
+        cases += reuse_cases(rng, M)
+    # cases through the library's own numerically differentiated propagator derivatives
+    nd = 0 if tier == "quick" else 4
     for j in range(nd):
         M = 1 + j % 3
         n = 1 if tier == "quick" else 1 + j % 2
@@ -407,6 +437,15 @@ def correspondence(res, tier, rng):
         if real["n_replicated"] != 2 * n + 1:
             res.disagree("compute_gradient_and_dynamics copied %d nodes, the modelled loops copy %d"
                          % (real["n_replicated"], 2 * n + 1), d)
+        if "grad_rtol" in c:
+            # derivatives: numdifftools (real call) vs Frechet (model input) -- not exact
+            scale = max(float(max(np.abs(g).max() for g in m["gradient"])), 1e-12)
+            if not errs["gradient"] <= c["grad_rtol"] * scale:
+                res.disagree("real gradient of call %s on a re-used system object differs from the "
+                             "model by %g (relative %g)" % (d.get("call"), errs["gradient"],
+                                                            errs["gradient"] / scale),
+                             {"case": d, "what": "gradient", "difference": errs["gradient"]})
+            errs = {k: v for k, v in errs.items() if k != "gradient"}
         for what, e in errs.items():
             if not e <= TOL:
                 res.disagree("real %s differ from the model by %g" % (what, e),
@@ -417,11 +456,11 @@ def correspondence(res, tier, rng):
 # search: finite differences of the forward dynamics
 # ---------------------------------------------------------------------------
 
-def forward_objective(M, dissipator, coeffs, params, pts, rho0, tgt, n, quadratic=False):
+def forward_objective(M, dissipator, coeffs, params, pts, rho0, tgt, n, quadratic=False, dt=DT):
     import oqupy
-    system = piecewise_system(M, dissipator, coeffs, params)
+    system = piecewise_system(M, dissipator, coeffs, params, dt=dt)
     dyn = oqupy.compute_dynamics(system, initial_state=np.array(rho0), process_tensor=list(pts),
-                                 dt=DT, num_steps=n, start_time=0.0, subdiv_limit=None,
+                                 dt=dt, num_steps=n, start_time=0.0, subdiv_limit=None,
                                  progress_type="silent")
     if quadratic:
         z = quadratic_objective(tgt, dyn.states[-1])
@@ -430,28 +469,33 @@ def forward_objective(M, dissipator, coeffs, params, pts, rho0, tgt, n, quadrati
     return z, dyn
 
 
-def fd_oracle(spec, pts, rho0, tgt, params, derivs="frechet", h=1e-5, quadratic=False):
+def fd_oracle(spec, pts, rho0, tgt, params, derivs="frechet", h=1e-5, quadratic=False,
+              system=None):
     """returns (relative gradient error per half step, dynamics error, details);
-    `quadratic`: objective 1/2 sum tgt_ij rho_ij^2 through a callable target_derivative"""
+    `quadratic`: objective 1/2 sum tgt_ij rho_ij^2 through a callable target_derivative;
+    `system`: an existing (possibly already used) ParameterizedSystem built from `spec`;
+    the time step is that of the process tensors"""
     import oqupy.gradient as G
     M, dissipator, coeffs = spec
     n = len(pts[0])
-    system = make_real_system(M, dissipator, coeffs, derivs=derivs)
+    dt = pts[0].dt
+    if system is None:
+        system = make_real_system(M, dissipator, coeffs, derivs=derivs)
     r = G.state_gradient(system=system, initial_state=np.array(rho0),
                          target_derivative=(quadratic_target(tgt) if quadratic
                                             else np.array(tgt).copy()),
                          process_tensors=list(pts),
                          parameters=np.array(params), progress_type="silent")
     grad = np.array(r["gradient"])
-    z0, dyn = forward_objective(M, dissipator, coeffs, params, pts, rho0, tgt, n, quadratic)
-    fd = np.zeros_like(grad)
+    z0, dyn = forward_objective(M, dissipator, coeffs, params, pts, rho0, tgt, n, quadratic, dt)
+    fd = np.zeros(grad.shape, dtype=complex)    # NOT zeros_like: the gradient's dtype is under test
     for k in range(2 * n):
         for j in range(M):
             p = np.array(params, dtype=float)
             p[k, j] += h
-            zp, _ = forward_objective(M, dissipator, coeffs, p, pts, rho0, tgt, n, quadratic)
+            zp, _ = forward_objective(M, dissipator, coeffs, p, pts, rho0, tgt, n, quadratic, dt)
             p[k, j] -= 2 * h
-            zm, _ = forward_objective(M, dissipator, coeffs, p, pts, rho0, tgt, n, quadratic)
+            zm, _ = forward_objective(M, dissipator, coeffs, p, pts, rho0, tgt, n, quadratic, dt)
             fd[k, j] = (zp - zm) / (2 * h)
     scale = max(np.abs(fd).max(), 1e-12)
     rel = np.abs(grad - fd).max(axis=1) / scale
@@ -478,9 +522,11 @@ def _cplx(a):
     return [[[float(np.real(z)), float(np.imag(z))] for z in row] for row in np.atleast_2d(a)]
 
 
-def judge(res, key, spec, pts, rho0, tgt, params, ptdesc, derivs="frechet"):
+def judge(res, key, spec, pts, rho0, tgt, params, ptdesc, derivs="frechet", system=None,
+          history=None):
     quadratic = ":target=callable" in key
-    rel, dyn_err, det = fd_oracle(spec, pts, rho0, tgt, params, derivs, quadratic=quadratic)
+    rel, dyn_err, det = fd_oracle(spec, pts, rho0, tgt, params, derivs, quadratic=quadratic,
+                                  system=system)
     bad = [int(k) for k in np.nonzero(rel > FD_RTOL)[0]]
     ok = True
     if bad:
@@ -490,7 +536,8 @@ def judge(res, key, spec, pts, rho0, tgt, params, ptdesc, derivs="frechet"):
             "difference of the forward dynamics (compute_dynamics, piecewise-constant controls)",
             "environments": ptdesc, "system": {"M": spec[0], "dissipator": spec[1], "coeffs": spec[2],
                                                "propagator_derivatives": derivs},
-            "parameters": np.array(params).tolist(), "dt": DT,
+            "parameters": np.array(params).tolist(), "dt": pts[0].dt, "num_steps": len(pts[0]),
+            "earlier_calls_on_the_same_system_object": history or [],
             "initial_state": _cplx(rho0),
             "target_derivative": ("callable rho -> W*rho (objective 1/2 sum W rho^2), W below"
                                   if quadratic else "the array below"),
@@ -525,6 +572,8 @@ def search_cases(seed, count):
                             ("tempo:z+x", 3, 3, "const")]:
         out.append(("fd:%s:N=%d:M=%d:dissipator=%s" % (name, n, M, dis), name, n, M, dis, None))
     out.append(("fd:tempo:x+z:N=2:M=2:dissipator=param:target=callable", "tempo:x+z", 2, 2, "param", None))
+    out.append(("fd:tempo:z:N=2:M=1:dissipator=const:nonhermitian", "tempo:z", 2, 1, "const", None))
+    out.append(("fd:tempo:z+x:N=2:M=2:dissipator=param:nonhermitian", "tempo:z+x", 2, 2, "param", None))
     # hand-built random process tensors (strongly non-commuting)
     for i in range(count):
         E = 2 if i % 4 else 1
@@ -532,9 +581,10 @@ def search_cases(seed, count):
         M = 1 + (i // 2) % 3
         dis = ["none", "const", "param"][i % 3]
         bonds = [rand_bonds(rng, n, 2) for _ in range(E)]
-        out.append(("fd:random-pt:E=%d:N=%d:M=%d:dissipator=%s:bonds=%s#%d%s"
+        out.append(("fd:random-pt:E=%d:N=%d:M=%d:dissipator=%s:bonds=%s#%d%s%s"
                     % (E, n, M, dis, "/".join("".join(map(str, b)) for b in bonds), i,
-                       ":target=callable" if i % 5 == 4 else ""),
+                       ":target=callable" if i % 5 == 4 else "",
+                       ":nonhermitian" if i % 3 == 0 else ""),
                     "random", n, M, dis, (bonds, rng.randrange(1 << 30))))
     return out
 
@@ -557,6 +607,11 @@ def build_search_case(item):
     params = [[round(rng.uniform(-1.2, 1.2), 3) for _ in range(M)] for _ in range(2 * n)]
     rho0 = np.array([[0.75, 0.25 - 0.125j], [0.25 + 0.125j, 0.25]])
     tgt = np.array([[0.5, 0.5j], [-0.5j, 0.5]]) if n % 2 else np.array([[0.25, 0.5], [0.125, 0.75]])
+    if ":nonhermitian" in key:
+        # complex non-Hermitian target derivative (Z = rho_01-like) and/or initial "state"
+        tgt = np.array([[0.0, 1.0], [0.0, 0.0]]) if M % 2 else np.array([[0.25j, 0.5 - 0.25j], [0.125, 0.75]])
+        if n % 2 == 0:
+            rho0 = np.array([[0.5, 0.25 + 0.125j], [0.125j, 0.5 - 0.25j]])
     return (M, dis, coeffs), pts, rho0, tgt, params, ptdesc
 
 
@@ -574,6 +629,32 @@ def search(res):
     item = ("fd:random-pt:numdifftools:E=2:N=1:M=1", "random", 1, 1, "param", ([[1, 1], [1, 1]], 7))
     spec, pts, rho0, tgt, params, ptdesc = build_search_case(item)
     judge(res, item[0], spec, pts, rho0, tgt, params, ptdesc, derivs="numdiff")
+    reuse_search(res)
+
+
+def reuse_search(res, only=None):
+    """ONE ParameterizedSystem (numdifftools derivatives) used for consecutive state_gradient calls
+    with process tensors of different dt and length; every call is judged on its own"""
+    M, spec = 1, (1, "param", [0.5, 0.2, 0.1])
+    system = make_real_system(M, spec[1], spec[2], derivs="numdiff")
+    r = random.Random(4242)
+    shared = [0.4]
+    history, ok = [], None
+    for call, (dt, n) in enumerate(REUSE_CALLS):
+        key = "fd:reuse-system:numdifftools:call=%d:dt=%s:N=%d:M=%d" % (call, dt, n, M)
+        params = [[round(r.uniform(-1, 1), 3)] for _ in range(2 * n)]
+        params[0] = list(shared)
+        params[-1] = list(shared)
+        pts = [rand_pt(r, n, rand_bonds(r, n, 2), dt=dt)]
+        rho0 = np.array([[0.75, 0.25 - 0.125j], [0.25 + 0.125j, 0.25]])
+        tgt = np.array([[0.5, 0.5j], [-0.5j, 0.5]])
+        ptdesc = {"kind": "hand-built random rank-4 MPOs, random.Random(4242) stream", "dt": dt}
+        ok_call = judge(res, key, spec, pts, rho0, tgt, params, ptdesc, derivs="numdiff",
+                        system=system, history=list(history))
+        if only is None or only == key:
+            ok = ok_call if ok is None else (ok and ok_call)
+        history.append({"dt": dt, "num_steps": n, "parameters": params})
+    return ok
 
 
 def replay_one(res, payload):
@@ -584,6 +665,8 @@ def replay_one(res, payload):
         res.notes.append("replay: no oracle for key %r" % key)
         return None
     base = key[:-len(":dynamics")] if key.endswith(":dynamics") else key
+    if base.startswith("fd:reuse-system:"):
+        return reuse_search(res, only=base)
     found = None
     for item in search_cases(payload.get("seed", res.seed), 40) + [
             ("fd:random-pt:numdifftools:E=2:N=1:M=1", "random", 1, 1, "param", ([[1, 1], [1, 1]], 7))]:
